@@ -19,6 +19,13 @@ def main():
         try:
             a = subprocess.run(["git", "-C", wt, "apply", os.path.join(dest, "patch.diff")])
             meta["patch_applies"] = a.returncode == 0
+            if os.environ.get("SEED_PYTEST") == "1":
+                envp = dict(os.environ, PYTHONPATH=wt, OMP_NUM_THREADS="2", PYTHONWARNINGS="ignore")
+                envp.pop("LANL_PYSEQM_VERIF", None)
+                pp = subprocess.run(["/venv/bin/python", "-m", "pytest", "-q", "-p", "no:cacheprovider", "--timeout=900", "-n", "6"], cwd=wt, env=envp, stdout=subprocess.PIPE, stderr=subprocess.STDOUT, text=True)
+                meta["pytest_rc"] = pp.returncode
+                meta["pytest_tail"] = pp.stdout.strip().splitlines()[-1] if pp.stdout.strip() else ""
+                meta["ran"] = [r for r in meta.get("ran", []) if not r.startswith("pytest")] + ["pytest (whole suite, -n 6, guard off) with patch -> rc %d: %s" % (pp.returncode, meta["pytest_tail"])]
             tier = os.environ.get("SEED_TIER", "quick")
             envc = dict(os.environ, VERIF_REPO=wt, VERIF_SCRATCH=os.path.join(wt, ".vs"), VERIF_OUT=os.path.join(wt, ".vo"), VERIF_EVIDENCE_DIR=os.path.join(wt, ".ve"))
             p = subprocess.run(["/verif/check", prop, "--tier", tier], env=envc, stdout=subprocess.PIPE, stderr=subprocess.STDOUT, text=True)
